@@ -122,6 +122,7 @@ class Ctx:
         self.hist: Dict[str, int] = {}
         self.disagreements: List[Dict[str, Any]] = []
         self.failures: List[Dict[str, Any]] = []
+        self._fail_per_sig: Dict[str, int] = {}
         self.notes: List[str] = []
         self.streams: Dict[str, int] = {}
         self.broken: List[Dict[str, Any]] = []  # broken extraction / build / audit items
@@ -164,7 +165,10 @@ class Ctx:
 
     def fail(self, inp: Any, what: str, sig: str, extra: Optional[Dict[str, Any]] = None) -> None:
         """The property itself fails on the real implementation for ``inp``."""
-        if len(self.failures) < 200:
+        # capped per signature (not only in total): many re-shown known findings must not push an unlisted failure out of the list
+        k = self._fail_per_sig.get(sig, 0)
+        self._fail_per_sig[sig] = k + 1
+        if k < 6 and len(self.failures) < 1000:
             d = {"input": show(inp), "what": what, "sig": sig}
             if extra:
                 d.update(show(extra))
